@@ -1178,7 +1178,11 @@ class PDFPageInterpreter:
 
     def do_EI(self, obj: PDFStackT) -> None:
         """End inline image object"""
-        if isinstance(obj, PDFStream) and "W" in obj and "H" in obj:
+        if (
+            isinstance(obj, PDFStream)
+            and obj.get_any(("W", "Width")) is not None
+            and obj.get_any(("H", "Height")) is not None
+        ):
             # name the image after its data, so that the name is the same
             # whenever and wherever the page is processed
             iobjid = "inline-%08x" % zlib.crc32(obj.get_rawdata() or b"")
